@@ -200,7 +200,7 @@ def eval_items(items):
 def bounded(chk):
     from vf.framework import run_bounded
     maxn = 5 if chk.tier == "quick" else 7
-    easy = [(0, 0), (1, 0), (0, 3), (3, 1)] if chk.tier == "quick" else [(0, 0), (1, 0), (0, 1), (0, 3), (3, 1), (3, 3), (7, 2)]
+    easy = [(0, 0), (1, 0), (0, 3), (3, 1), (2, 2)] if chk.tier == "quick" else [(0, 0), (1, 0), (0, 1), (0, 3), (3, 1), (2, 2), (3, 3), (7, 2)]
     items = []
     for pos, neg in B.order_types(maxn, min_pos=1, min_neg=1):
         tiefree = len(set(pos) | set(neg)) == len(pos) + len(neg)
